@@ -120,6 +120,9 @@ def plan(tier, seed):
     for n in (1, 2, 3, 4):
         items.append(dict(group="large-batch", n=n))
     items.append(dict(group="dictionary"))
+    # systems wider than a byte of index bits (n = 9, 10): explicit states through the per-outcome paths
+    for n in (9, 10):
+        items.append(dict(group="wide", n=n))
     for first in range(len(HIST_OPS)):
         items.append(dict(group="dict-history", first=first, depth=4 if tier == "quick" else 5))
     # chunk: many tiny cases per worker call
@@ -139,6 +142,35 @@ def _states(n, dmode):
     return cst, mst
 
 
+def check_wide(acc, case):
+    """explicit psi / rho of a 9- or 10-qubit system through rotate_psi_inner_prod / rotate_rho_probs: outcome rows
+    with ones among the FIRST sites (index bits above the eighth) and rotated first / last / middle sites"""
+    L = lib()
+    U_ = L.unitaries
+    n = case["n"]
+    D = 2 ** n
+    cst, mst = _states(n, "default")
+    psi = gen_vec(D, 0)
+    psi = psi / np.linalg.norm(psi)
+    rows = sorted({0, 1, D - 1, D // 2, D // 2 + 5, 300, D - 256, 257, 511})
+    space = cst.generate_hilbert_space()[rows]
+    rho_t = c2t(np.outer(psi, psi.conj()))
+    for basis in ("X" + "Z" * (n - 2) + "Y", "Z" * (n - 1) + "X", "Y" + "Z" * (n - 1), "Z" * 4 + "X" + "Z" * (n - 5), "Z" * n):
+        acc.ev(1, nontrivial=set(basis) != {"Z"})
+        want = (R.basis_unitary(basis) @ psi)[rows]
+        try:
+            g1 = L.cplx.numpy(call(U_.rotate_psi_inner_prod, cst, basis, space, psi=c2t(psi)))
+            g2 = call(U_.rotate_rho_probs, mst, basis, space, rho=rho_t).numpy()
+        except LibRaised as e:
+            acc.viol(f"rotate:raised:{e.kind}:wide", dict(case, basis=basis), observed=e.tb)
+            return
+        acc.count("comparisons", 2)
+        if not close(g1, want, TOL, at=TOL) or not close(g2, np.abs(want) ** 2, TOL, at=TOL):
+            acc.viol("rotate_psi_inner_prod:explicit:wide-system", dict(case, basis=basis), observed=g1, expected=want)
+            return
+    acc.outcome(f"wide{n}")
+
+
 def check_case(acc, case):
     L = lib()
     U_ = L.unitaries
@@ -146,6 +178,8 @@ def check_case(acc, case):
         return check_dictionary(acc, case)
     if case["group"] == "large-batch":
         return check_large_batch(acc, case)
+    if case["group"] == "wide":
+        return check_wide(acc, case)
     n, basis, dmode = case["n"], case["basis"], case["dict"]
     D = 2 ** n
     space = tbits(n)
